@@ -36,7 +36,7 @@ thorough_json = [
  {"entry": "HJInt", "args": [[0, d, n] for d in range(1, 11) for n in (0, 1)] + [[k, d, n] for k in (1, 2) for d in ALLD64 for n in (0, 1)]},
  {"entry": "HJUint", "args": [[0, d] for d in range(1, 11)] + [[k, d] for k in (1, 2) for d in range(1, 21)]},
  {"entry": "HJMAC", "product": [[0, 15]]},
- {"entry": "HJUnix", "args": [[u, s, d, 0] for u in range(4) for s in (0, 1) for d in ALLD64] + [[u, s, d, 1] for u in range(4) for s in (0, 1) for d in range(1, 7)]},
+ {"entry": "HJUnix", "args": [[u, 1, d, 0] for u in range(4) for d in ALLD64] + [[u, 1, d, 1] for u in range(4) for d in range(1, 7)] + [[u, 0, d, n] for u in range(4) for d in (1, 2, 3) for n in (0, 1)]},
  {"entry": "HJDuration", "args": [[c, n] for c in range(7) for n in (0, 1)] + [[6, 2]]},
 ]
 spec = {
